@@ -307,7 +307,21 @@ def run_proposal(c):
     if c["state"] == "trained":
         p.train(live, plot=False)
     else:
+        # an untrained flow, but the rescaling configured from the live points exactly as train() does before it trains
+        # (a population with reparameterisations that were never updated is not a legitimate use)
+        p.check_state(live)
         p.training_data = live
+    # a population of this small pool that needs more than 400 batches is reported, never waited for
+    real_bp_sal = p.flow.sample_and_log_prob
+    n_calls = [0]
+
+    def capped(*a, **k):
+        n_calls[0] += 1
+        if n_calls[0] > 400:
+            raise RuntimeError("population did not finish within 400 batches")
+        return real_bp_sal(*a, **k)
+
+    p.flow.sample_and_log_prob = capped
     with np.errstate(all="ignore"):
         p.populate(live[0], N=20, plot=False)          # sets the radius, alt_dist and the latent sampler
         z = p.draw_latent_prior(24)
@@ -343,6 +357,11 @@ def run_proposal(c):
         zt = p.flow.numpy_array_to_tensor(zk)
         base = p.flow.model.base_distribution_log_prob(zt).numpy().astype(np.float64)
         latent = (p.alt_dist.log_prob(zt).numpy().astype(np.float64) if p.alt_dist is not None else base)
+        # conditioning of the flow at these points (see run_flow): float-type tolerance x exp(max |logabsdet| / dims)
+        _, ld_f = p.flow.model._transform(p.flow.numpy_array_to_tensor(arr))
+        kappa = math.exp(min(20.0, float(ld_f.abs().max()) / max(1, arr.shape[1]))) if len(arr) else 1.0
+    tol_x, tol_lp = tol_x * kappa, tol_lp * kappa
+    out["kappa"] = kappa
     corr = base - latent
     e = float(np.abs(lq2 - (lq + corr)).max()) if len(lq) else 0.0
     direct("proposal density at a generated physical point = density when the point is passed forwards (+ base - latent)",
